@@ -812,7 +812,7 @@ func c06ephemeral(c *an.Ctx) {
 					if !ok || st.Val != u.X {
 						return
 					}
-					if fa, ok := st.Addr.(*ssa.FieldAddr); ok && an.FieldOf(fa).Name() == "ephemeral" && an.SameValue(an.Strip(fa.X), obj) {
+					if fa, ok := st.Addr.(*ssa.FieldAddr); ok && an.FName(an.FieldOf(fa)) == "ephemeral" && an.SameValue(an.Strip(fa.X), obj) {
 						good = true
 					}
 				})
